@@ -172,3 +172,54 @@ func shortCallee(c string) string {
 	c = strings.ReplaceAll(c, "github.com/cosmos/cosmos-sdk/", "sdk/")
 	return c
 }
+
+// C18: the stake-change decorator is part of the ante chain built by app.NewAnteHandler.
+func init() {
+	sweeps["ante_chain"] = func(p *Prog) *SweepResult {
+		sr := &SweepResult{Name: "ante_chain"}
+		fn := p.Funcs["app.NewAnteHandler"]
+		found, chained := false, false
+		if fn != nil {
+			for _, b := range fn.Blocks {
+				for _, in := range b.Instrs {
+					c, ok := in.(*ssa.Call)
+					if !ok {
+						continue
+					}
+					callee := c.Call.StaticCallee()
+					if callee == nil || !strings.HasSuffix(callee.String(), "x/reporter/ante.NewTrackStakeChangesDecorator") {
+						continue
+					}
+					found = true
+					// the decorator value must be boxed and stored into the decorator list
+					for _, r := range *c.Referrers() {
+						if mi, ok := r.(*ssa.MakeInterface); ok {
+							for _, r2 := range *mi.Referrers() {
+								if _, ok := r2.(*ssa.Store); ok {
+									chained = true
+								}
+							}
+						}
+					}
+				}
+			}
+			// and the list must be passed to ChainAnteDecorators
+			usesChain := false
+			for _, b := range fn.Blocks {
+				for _, in := range b.Instrs {
+					if c, ok := in.(*ssa.Call); ok {
+						if callee := c.Call.StaticCallee(); callee != nil && strings.HasSuffix(callee.String(), "cosmos-sdk/types.ChainAnteDecorators") {
+							usesChain = true
+						}
+					}
+				}
+			}
+			chained = chained && usesChain
+		}
+		sr.Obls = append(sr.Obls, structObl("sweep.ante_chain#decorator_constructed_in_NewAnteHandler", "frame.sweep", found, "app.NewAnteHandler no longer constructs the TrackStakeChangesDecorator"))
+		sr.Obls = append(sr.Obls, structObl("sweep.ante_chain#decorator_in_chain", "frame.sweep", chained, "the TrackStakeChangesDecorator is constructed but not placed in the list given to ChainAnteDecorators"))
+		sr.Sites = []string{"app.NewAnteHandler"}
+		sr.Explanation = "structural check on the SSA of app/ante.go: decorator constructed, boxed, stored in the decorator list, list passed to ChainAnteDecorators"
+		return sr
+	}
+}
